@@ -3,13 +3,13 @@
 (* The scenario space of C18: (graph shape x options x edit) triples,      *)
 (* enumerated by TLC and built twice with the real api.Build.  Every       *)
 (* triple is instantiated as a pair of worlds of Hash.tla (the code as it  *)
-(* is: LegalInHash = FALSE) and the set of properties the model predicts   *)
-(* to fail is exported as `expect` (a candidate, guard 3: only the real    *)
-(* builds decide).                                                          *)
+(* is: lih = FALSE) and the set of properties the model predicts to fail   *)
+(* is exported as `expect` (a candidate, guard 3: only the real builds     *)
+(* decide).                                                                 *)
 (***************************************************************************)
 EXTENDS Integers, Sequences, FiniteSets, TLC, Json
 
-H == INSTANCE Hash WITH LegalInHash <- FALSE
+H == INSTANCE Hash
 
 \* chunk 1 = entry a, chunk 2 = entry b (or the dynamically imported b), chunk 3 = shared chunk
 Shape(s) ==
@@ -45,9 +45,9 @@ Sensible(s) ==
 World(s) ==
   LET sh == Shape(s.shape)
       C == 1..sh.n
-  IN [ chunks |-> C, assets |-> {"x"}, imp |-> sh.imp, aref |-> sh.aref,
+  IN [ chunks |-> C, assets |-> {"x"}, names |-> <<>>, imp |-> sh.imp, aref |-> sh.aref,
        hashedC |-> [c \in C |-> IF c = 1 \/ (c = 2 /\ s.shape # "dyncycle") THEN s.names = "allhash" ELSE TRUE],
-       hashedA |-> TRUE, pp |-> s.pp, sm |-> s.sm, legal |-> s.legal,
+       hashedA |-> TRUE, pp |-> s.pp, sm |-> s.sm, legal |-> s.legal, lih |-> FALSE,
        fake |-> [c \in C |-> c = 1],
        code |-> [c \in C |-> 0], parts |-> [c \in C |-> 0], tmpl |-> [c \in C |-> 0],
        smap |-> [c \in C |-> 0], legalv |-> [c \in C |-> 1], ppv |-> 0, abytes |-> [a \in {"x"} |-> 0] ]
